@@ -4152,6 +4152,13 @@ func ruleHookReplace(w *World, r *Report) {
 		}
 		if found {
 			r.ok("HOOK-REPLACE", key, w.PosOf(rems[0]), "a fact without a schedule that replaces a scheduled rule removes the job")
+			hookReplaceEvery(w, r, fn, key, func(in ssa.Instruction) bool {
+				if isSched(in) {
+					return true
+				}
+				c := callOf(in)
+				return c != nil && isIfaceMethodCall(c, st, "Get")
+			})
 		} else if statesUnhookOnOverwrite(w) {
 			r.ok("HOOK-REPLACE", key, w.Pos(fn.Pos()), "every State implementation's Add runs the removal hook itself (alternative design)")
 		} else {
